@@ -74,12 +74,12 @@ class Ctx:
     def note(self, s):
         self.notes.append(s)
 
-    def import_prop(self, pid, rule="IMPORT"):
+    def import_prop(self, pid, rule="IMPORT", only=None, label=None):
         """run another property's premises inside this check (shared facts) and record the outcome as one obligation.
         Open known findings of the imported property stay findings of that property; they fail the import unless they
         are also listed for this property."""
         import importlib
-        key = (pid,)
+        key = (pid, label)
         if key in getattr(self, "_imports", {}):
             return self._imports[key]
         if not hasattr(self, "_imports"):
@@ -91,15 +91,23 @@ class Ctx:
         child.known = self.known
         child._imported = True
         mod.run(child)
-        fails = [o for o in child.obs if o.status == "fail"]
+        obs = child.obs
+        if only is not None:
+            # narrow import: only the premise instances of `pid` that this property depends on (named by `label`)
+            obs = [o for o in child.obs if only(o)]
+            if not obs:
+                self.fail(rule, "%s[%s]" % (pid, label), "the imported premise instances of %s (%s) exist" % (pid, label), "", "0 matching premise instances")
+                return (False, 0, [])
+        fails = [o for o in obs if o.status == "fail"]
         open_known = self.known["open"]
         hard = [o for o in fails if ("%s:%s:%s" % (pid, o.rule, o.key)) not in open_known]
         ok = not hard
-        self._imports[key] = (ok, len(child.obs), hard)
-        self.check(ok, rule, pid, "all %d premise instances of %s hold on the current tree" % (len(child.obs), pid), "",
-                   how="%d premise instances re-decided in this run" % len(child.obs),
+        self._imports[key] = (ok, len(obs), hard)
+        name = pid if label is None else "%s[%s]" % (pid, label)
+        self.check(ok, rule, name, "all %d premise instances of %s hold on the current tree" % (len(obs), name), "",
+                   how="%d premise instances re-decided in this run" % len(obs),
                    why="failed premises of %s: %s" % (pid, [("%s:%s" % (o.rule, o.key))[:100] for o in hard[:6]]))
-        self.analysed["imported premises of " + pid] = len(child.obs)
+        self.analysed["imported premises of " + name] = len(obs)
         return self._imports[key]
 
     # -- finish ----------------------------------------------------------------
